@@ -148,7 +148,11 @@ func runC07Request(world map[string]any, rq map[string]any) (map[string]any, err
 	keyStr := ""
 	for i, n := range before {
 		snapJSON[i] = sb.nodeJSON(n, sb.outer, nil)
-		keyStr += fmt.Sprintf("%s|%s|%d\n", key(n), n.K, n.S) // (account files carry salted hashes: contents differ)
+		sz := n.S
+		if len(n.P) > 1 && n.P[len(n.P)-2] == "Users" {
+			sz = 0 // account files carry salted hashes: contents (and the YAML encoder's quoting) differ
+		}
+		keyStr += fmt.Sprintf("%s|%s|%d\n", key(n), n.K, sz)
 	}
 	// every sandbox of a variant must start identical (the log carries one world event per variant)
 	snap0Mu.Lock()
@@ -156,7 +160,7 @@ func runC07Request(world map[string]any, rq map[string]any) (map[string]any, err
 		snap0Key[occ+2*ur] = keyStr
 	} else if k0 != keyStr {
 		snap0Mu.Unlock()
-		return nil, fmt.Errorf("sandboxes of variant %d differ initially", occ)
+		return nil, fmt.Errorf("sandboxes of variant occ=%d ur=%d differ initially", occ, ur)
 	}
 	snap0Mu.Unlock()
 	ev["_snap0"] = snapJSON
